@@ -7,7 +7,8 @@ package main
 //	X.Lock()            ->  zzvrt.SchedLock(X.TryLock, X.Unlock)
 //	X.RLock()           ->  zzvrt.SchedLock(X.TryRLock, X.RUnlock)
 //	X.Unlock()          ->  zzvrt.SchedUnlock(X.Unlock)         (RUnlock alike)
-//	atomic.F(args)      ->  zzvrt.SchedAtomic(atomic.F(args))   (or SchedAtomic0(func(){...}) without result)
+//	atomic.F(args)      ->  zzvrt.SchedFn(atomic.F)(args)       (schedule point before the operation)
+//	X.M(args)           ->  zzvrt.SchedRecv(X).M(args)          (typed atomics, sync.Map; &X for pointer methods)
 //
 // The rewrite is type-directed (go/types decides what is a sync.Mutex / sync.RWMutex method or a
 // sync/atomic function) and regenerated from the current sources on every build.
@@ -105,6 +106,22 @@ func rewriteSched(pkgPaths []string, src map[string]string, outDir string) (map[
 				seq++
 				edits = append(edits, srcEdit{off, del, t, seq})
 			}
+			// method call on a typed atomic or a sync.Map: the schedule point is taken while the receiver
+			// is evaluated, X.M(args) -> zzvrt.SchedRecv(X).M(args)  (&X for a pointer method on a value)
+			wrapRecv := func(sel *ast.SelectorExpr, sig *types.Signature) {
+				a, b := offs(sel.X)
+				amp := ""
+				if _, isPtr := sig.Recv().Type().(*types.Pointer); isPtr {
+					if xt := info.TypeOf(sel.X); xt != nil {
+						if _, xp := xt.Underlying().(*types.Pointer); !xp {
+							amp = "&"
+						}
+					}
+				}
+				add(a, 0, "zzvrt.SchedRecv("+amp)
+				add(b, 0, ")")
+				nPoints++
+			}
 			ast.Inspect(f, func(n ast.Node) bool {
 				c, ok := n.(*ast.CallExpr)
 				if !ok {
@@ -129,7 +146,7 @@ func rewriteSched(pkgPaths []string, src map[string]string, outDir string) (map[
 				sig := fn.Type().(*types.Signature)
 				switch fn.Pkg().Path() {
 				case "sync":
-					if sig.Recv() == nil || len(c.Args) != 0 {
+					if sig.Recv() == nil {
 						return true
 					}
 					rt := sig.Recv().Type()
@@ -137,7 +154,14 @@ func rewriteSched(pkgPaths []string, src map[string]string, outDir string) (map[
 						rt = pt.Elem()
 					}
 					nt, ok := rt.(*types.Named)
+					if ok && nt.Obj().Name() == "Map" {
+						wrapRecv(sel, sig)
+						return true
+					}
 					if !ok || (nt.Obj().Name() != "Mutex" && nt.Obj().Name() != "RWMutex") {
+						return true
+					}
+					if len(c.Args) != 0 {
 						return true
 					}
 					a, b := offs(c)
@@ -164,15 +188,15 @@ func rewriteSched(pkgPaths []string, src map[string]string, outDir string) (map[
 					nPoints++
 					return false
 				case "sync/atomic":
-					a, b := offs(c)
-					if sig.Results().Len() > 0 {
-						add(a, 0, "zzvrt.SchedAtomic(")
+					if sig.Recv() == nil {
+						a, b := offs(c.Fun)
+						add(a, 0, "zzvrt.SchedFn(")
 						add(b, 0, ")")
-					} else {
-						add(a, 0, "zzvrt.SchedAtomic0(func() { ")
-						add(b, 0, " })")
+						nPoints++
+						return true
 					}
-					nPoints++
+					wrapRecv(sel, sig)
+					return true
 				}
 				return true
 			})
@@ -207,9 +231,9 @@ func rewriteSched(pkgPaths []string, src map[string]string, outDir string) (map[
 					switch {
 					case e.del > 0:
 						rest = append(rest, e)
-					case strings.HasSuffix(e.text, "(") || strings.HasSuffix(e.text, "{ "):
+					case strings.HasPrefix(e.text, "zzvrt."):
 						open = append(open, e)
-					case strings.HasPrefix(e.text, ")") || strings.HasPrefix(e.text, " }"):
+					case strings.HasPrefix(e.text, ")"):
 						clos = append(clos, e)
 					default:
 						rest = append(rest, e)
